@@ -148,6 +148,16 @@ CHECKS = {
         "trip, fixpoint, wire types per the specification's tables), applies every emitted edit to a fully populated PSET with its own "
         "writer and compares the decoder's verdict, and validates recorded mutations of repository vectors against the codec contract.",
    note="per-field value codecs are exercised, not modelled; one representative value per field."),
+ "C14": dict(
+   cat="model_checking", design="§4 C14",
+   technique="TLA+ model of PSETs as fact sets with a merge-order state machine and the key-source reconciliation table, TLC-checked; "
+             "families of descendants and all key-source pairs emitted and replayed on real PSETs, results projected to wire pairs by an "
+             "own reader",
+   text="TLC checks containment, no invention, order freedom, commutativity and associativity over families of three descendants and "
+        "the commutativity of the key-source rule; every emitted family is built for real (identical additions get identical contents), "
+        "merged in every order, and the result's set of wire pairs compared with the union of the operands', the unique id and the "
+        "equality of all orders; every ordered pair of key sources is merged both ways against the documented rule, under catch_unwind.",
+   note="additions disjoint or identical; one representative value per field; positions limited to 2 inputs / 2 outputs."),
 }
 NA_PENDING = "check not built yet in this round (planned, see DESIGN.md §4)"
 
